@@ -33,7 +33,8 @@ def bl(b):
 
 
 def e_bytes(vs):
-    return [len(vs)] + list(vs)
+    # a negative entry marks "Bytes() itself panicked" in the harness: shipped as 256, never equal to a model byte
+    return [len(vs)] + [256 if v < 0 else v for v in vs]
 
 
 def e_target(nil, cap, fill):
@@ -194,7 +195,12 @@ def run_tie(ck, harness):
         for key, cond in (("refused", refused), ("nil", c["nil"]), ("append", app)):
             if cond and len(res["samples"][key]) < 3:
                 res["samples"][key].append(compact(c))
-        enc = e_case(c)
+        try:
+            enc = e_case(c)
+        except ValueError as ex:
+            res["detail"] = "case %d (%s) cannot be serialised: %s" % (c["id"], c["tag"], ex)
+            res["mismatch_cases"] = [c]
+            return res
         for which, pref in (("append", "builtin:append-base"), ("chunks", "builtin:db-chunks"), ("label", "builtin:label-before-base")):
             if c["tag"].startswith(pref):
                 probes[which].append(enc)
